@@ -4,7 +4,7 @@
    Wire/WireModel.v; the functions translated from wire.go are Gen/WireGo.v. *)
 From Coq Require Import List NArith ZArith.
 From PB Require Import Base.PBytes Base.GoInt Wire.WireModel Wire.WireGrammar Wire.VarintP Wire.ScanP Wire.PrimP.
-From PB Require Import Gen.WireGo Wire.WireGoP.
+From PB Require Import Gen.WireGo Wire.WireGoP Wire.WireGoLoopP.
 Import ListNotations.
 Open Scope N_scope.
 
@@ -157,6 +157,16 @@ Theorem C01_go_Bytes :
 Proof. exact go_Bytes_spec. Qed.
 Print Assumptions C01_go_Bytes.
 
+(* the group round trip through the translated Go code (AppendGroup, then
+   ConsumeGroup with its strip loop) *)
+Theorem C01_go_group_roundtrip :
+  forall num body rest, num_ok num -> wf_fields (N.to_nat 10000) body ->
+    (Z.of_nat (length (append_group num body ++ rest)) < 2^63)%Z ->
+    go_ConsumeGroup (Z.of_N num) (go_AppendGroup [] (Z.of_N num) (zbytes body) ++ zbytes rest)
+    = Val (zbytes body, Z.of_N (size_group num (N.of_nat (length body)))).
+Proof. exact go_group_roundtrip. Qed.
+Print Assumptions C01_go_group_roundtrip.
+
 (* ---------------- non-vacuity ---------------- *)
 Example C01_ex_varint : dec_varint (enc_varint 300 ++ [xff]) = Ok (300, [xff]) /\ enc_varint 300 = [xac; x02].
 Proof. split; [apply C01_varint_roundtrip|]; vm_compute; reflexivity. Qed.
@@ -209,3 +219,9 @@ Example C01_ex_go_varint : go_AppendVarint (zbytes [x00]) (Z.of_N 300) = [0; 172
 Proof. rewrite (proj1 C01_go_Varint) by (vm_compute; reflexivity). vm_compute. reflexivity. Qed.
 Example C01_ex_go_consume : go_ConsumeVarint [172; 2; 99]%Z = Val (300, 2)%Z.
 Proof. apply (proj1 (proj2 C01_go_Varint) [xac; x02; x63]). Qed.
+Example C01_ex_go_group :
+  go_ConsumeGroup 5 (go_AppendGroup [] 5 [8; 150; 1; 19; 20] ++ [0])%Z = Val ([8; 150; 1; 19; 20], 6)%Z.
+Proof.
+  apply (C01_go_group_roundtrip 5 [x08; x96; x01; x13; x14] [x00]);
+    [split; vm_compute; congruence|exact C01_ex_group_body|vm_compute; reflexivity].
+Qed.
